@@ -89,11 +89,7 @@ func load(c px.Context, name px.TypedName) (interface{}, bool) {
 
 func (l *basicLoader) Discover(c px.Context, predicate func(tn px.TypedName) bool) []px.TypedName {
 	found := make([]px.TypedName, 0)
-	for k, e := range l.namedEntries {
-		if e.Value() == nil {
-			// a cached miss is not a binding
-			continue
-		}
+	for _, k := range l.boundKeys() {
 		tn := px.TypedNameFromMapKey(k)
 		if predicate(tn) {
 			found = append(found, tn)
@@ -101,6 +97,20 @@ func (l *basicLoader) Discover(c px.Context, predicate func(tn px.TypedName) boo
 	}
 	sort.Slice(found, func(i, j int) bool { return found[i].MapKey() < found[j].MapKey() })
 	return found
+}
+
+// boundKeys returns the keys of the entries that have a value (a cached miss is not a binding). The map is
+// read under the lock: other go routines may add entries at any time
+func (l *basicLoader) boundKeys() []string {
+	l.lock.RLock()
+	keys := make([]string, 0, len(l.namedEntries))
+	for k, e := range l.namedEntries {
+		if e.Value() != nil {
+			keys = append(keys, k)
+		}
+	}
+	l.lock.RUnlock()
+	return keys
 }
 
 func (l *basicLoader) LoadEntry(c px.Context, name px.TypedName) px.LoaderEntry {
@@ -165,11 +175,7 @@ func (l *basicLoader) NameAuthority() px.URI {
 func (l *parentedLoader) Discover(c px.Context, predicate func(tn px.TypedName) bool) []px.TypedName {
 	found := l.parent.Discover(c, predicate)
 	added := false
-	for k, e := range l.namedEntries {
-		if e.Value() == nil {
-			// a cached miss is not a binding
-			continue
-		}
+	for _, k := range l.boundKeys() {
 		tn := px.TypedNameFromMapKey(k)
 		if !l.parent.HasEntry(tn) {
 			if predicate(tn) {
